@@ -121,6 +121,36 @@ pub fn dispatch(mode: &str, f: &[Vec<u8>]) -> Option<R> {
                 Err(e) => Err(ekind(&e)),
             }
         }
+        // position text -> the sections read at that lexer offset, "/Size|- /Prev|-|!", the trailer dictionary
+        "xr_section" => {
+            let pos = dec(fld(f, 0)) as usize;
+            let st = match storage(b"%PDF-1.7\n", b"s") { Ok(s) => s, Err(e) => return Some(Err(ekind(&e))) };
+            let r = st.resolver();
+            let mut lexer = Lexer::with_offset(fld(f, 1), pos);
+            match read_xref_and_trailer_at(&mut lexer, &r) {
+                Ok((secs, tr)) => {
+                    let mut out: Vec<Vec<u8>> = secs.iter().map(section_text).collect();
+                    let size = match tr.get("Size").map(|p| p.as_u32()) { Some(Ok(n)) => format!("{}", n), _ => "-".into() };
+                    let prev = match tr.get("Prev").map(|p| p.as_usize()) { None => "-".into(), Some(Ok(n)) => format!("{}", n), Some(Err(_)) => "!".into() };
+                    out.push(format!("{} {}", size, prev).into_bytes());
+                    if fld(f, 2).first() != Some(&b'q') { out.push(canon(&Primitive::Dictionary(tr), &r)); }
+                    Ok(out)
+                }
+                Err(e) => Err(ekind(&e)),
+            }
+        }
+        // opts count file -> one field per object number 0..count (canon | "!"), then the trailer
+        "xr_open" => {
+            let mut st = match storage(&f[2], fld(f, 0)) { Ok(s) => s, Err(e) => return Some(Err(ekind(&e))) };
+            let tr = match st.load_storage_and_trailer() { Ok(t) => t, Err(e) => return Some(Err(ekind(&e))) };
+            let r = st.resolver();
+            let mut out = vec![];
+            for id in 0..dec(fld(f, 1)) as u64 {
+                out.push(match r.resolve(PlainRef { id, gen: 0 }) { Ok(p) => canon(&p, &r), Err(_) => b"!".to_vec() });
+            }
+            out.push(canon(&Primitive::Dictionary(tr), &r));
+            Ok(out)
+        }
         // opts count file -> one field per object number 0..count (canon | !Kind), the trailer, then one field
         // per scan item ("O<id>,<gen> canon" | "T canon" | "!Kind")
         "xr_all" => observe(fld(f, 0), dec(fld(f, 1)) as u64, &f[2]),
